@@ -235,6 +235,17 @@ fn content_yuv<T: Pixel>(acc: &mut Acc, idx: u64, src: Src, w: usize, h: usize, 
         match src {
             Src::Rgb => {
                 let dec = Rgb::try_from(&yuv).map_err(|e| format!("decode with own config failed: {e:?}"))?;
+                // literal reading for a gamma-RGB input: the decoded pixels reproduce the input
+                // pixels within the same fraction of full scale as the C09 code budget
+                let frac = (1.0 / ((1u32 << stored.bit_depth) - 1) as f64).max(0.015);
+                for (a, b) in dec.data().iter().zip(data.iter()) {
+                    for k in 0..3 {
+                        let d = (a[k] as f64 - b[k] as f64).abs();
+                        if !(d <= frac) {
+                            return Err(format!("RGBDOMAIN decoding the output with its own config gives {} for the input pixel {}: off by {d:.4} > {frac:.4} of full scale", px3s(*a), px3s(*b)));
+                        }
+                    }
+                }
                 let re = Yuv::<T>::try_from((&dec, stored)).map_err(|e| format!("{e:?}"))?;
                 let orig = Yuv::<T>::try_from((&Rgb::new(data.clone(), w, h, stored.transfer_characteristics, stored.color_primaries).unwrap(), stored)).map_err(|e| format!("{e:?}"))?;
                 Ok((planes_of(&re), planes_of(&orig)))
@@ -253,6 +264,10 @@ fn content_yuv<T: Pixel>(acc: &mut Acc, idx: u64, src: Src, w: usize, h: usize, 
     })();
     let (re, orig) = match res {
         Ok(x) => x,
+        Err(e) if e.starts_with("RGBDOMAIN") => {
+            acc.violation(idx, format!("labels-do-not-match-content src={src:?} (rgb domain)"), format!("{w}x{h} {cfg:?} stored {stored:?}: {}", &e[10..]), case());
+            return;
+        }
         Err(e) => {
             acc.violation(idx, format!("stored-config-unusable src={src:?}"), format!("{w}x{h} {cfg:?} stored {stored:?}: {e}"), case());
             return;
